@@ -168,4 +168,9 @@ instance (o : DftOut) : Decidable (FDomainOK o) := by unfold FDomainOK; exact in
 /-- the same clause on the integers of an exported plan -/
 def fdomainOK (L dftLen numTaps : Nat) : Bool := !isPow2L L || (dftLen - (numTaps - 1)) % L == 0
 
+/-- `dft_stage_init` for a non-linear phase `n/d` with the transform's result taken from the selection-step model
+    (`base` supplies `L`, `M`, `Fn`, the length estimate and `set_dft_length`'s answer for the transformed length). -/
+def dftInOf {α : Type} (base : DftIn) (cep : Cep α) (d n : Nat) : DftIn :=
+  { base with lin := false, tpLen := (firToPhaseAt cep d n).taps.length, tpPost := (firToPhaseAt cep d n).postLen.toNat }
+
 end Soxr.Phase
